@@ -70,6 +70,7 @@ pub fn run(a: &Args) {
     let load = a.get("load").is_some();
     let chop = a.get("chop").is_some();
     let breaks = a.get("breaks").is_some();
+    let keeptags = a.get("keeptags").is_some();
     let mut vname = "";
     let mut nreps = 0usize;
     for v in reps {
@@ -150,6 +151,26 @@ pub fn run(a: &Args) {
                 }
                 if bads.len() < 8 {
                     bads.push(b);
+                }
+            }
+        }
+        // an ill-formed stream is ill-formed under every parser option: keep_tags on, pull and push
+        // (except where the ill-formedness is a handle whose declaration ended with its document: that is what the option changes)
+        if reject && keeptags && !v["info"][0].as_str().unwrap_or("").starts_with("handle-of-previous-document") {
+            for (be, api) in [(Backend::Str, Api::Iter), (Backend::Buf, Api::PushMulti)] {
+                let r = run_parser_opts(&text, be, api, true);
+                runs += 1;
+                let why = if let Some(p) = &r.panic { format!("panic: {p}") } else if r.err.is_none() { "ill-formed stream accepted with keep_tags(true) (complete event stream, no error)".to_string() } else { String::new() };
+                if !why.is_empty() {
+                    bad += 1;
+                    let b = json!({"t": text, "be": format!("{}/{}/keep_tags", be.name(), api.name()), "variant": "", "why": why, "tape": v["tape"], "info": v["info"], "model_agrees_with_renderer": v["model"],
+                        "real": r.evs.iter().map(|e| json!([e.k, e.v, e.style, e.aid])).collect::<Vec<_>>(), "err": Value::Null});
+                    if let Some(w) = bad_out.as_mut() {
+                        writeln!(w, "{b}").unwrap();
+                    }
+                    if bads.len() < 8 {
+                        bads.push(b);
+                    }
                 }
             }
         }
